@@ -457,7 +457,7 @@ mod verif_layout {
                 if !is_index { assert!(out.size(0) == size, "Python slice length"); }
                 if out.len() > 0 {
                     let j = any_index_in(out.shape());
-                    let i = if is_index { start } else { start + j.get(0).copied().unwrap_or(0) };
+                    let i = if is_index { start } else { start + j.as_slice().first().copied().unwrap_or(0) };
                     let o = out.offset(j).unwrap();
                     assert!(Some(r.start + o) == l.offset([i]), "element j of the slice is element ref(j) of the source");
                     assert!(r.start + o < r.end);
